@@ -40,8 +40,8 @@ PROPS = {
     ),
     'C13': dict(
         level='proof',
-        contracts=['body_read', 'C04', 'C05'],
-        frames=[],
+        contracts=['body_read', 'C04', 'C05', 'C12'],
+        frames=['errors_map_const'],
         technique='deductive: loop-invariant VCs from the real AST of _body_read (limit, spooling, content) on top of the proved '
                   'generator contracts of _iter_body/_iter_chunked (part size <= buffer); bounded run-time check as replay harness',
         explanation='VCs over _body_read: BodySizeError is raised iff the accumulated size exceeds max_body_size at a part boundary, '
@@ -183,7 +183,7 @@ PROPS = {
         level_note='Preemption bound and request kinds are stated in coverage.bounded.bound; threading.local semantics and CPython atomicity of single container operations assumed.',
     ),
     'C09': dict(
-        level='other', contracts=['C14', 'C03'], frames=[],
+        level='other', contracts=['C14', 'C03', 'C12'], frames=[],
         technique='bounded run-time contract check of request histories against a fresh application + weak-reference retention count; '
                   'VC on BaseResponse.__init__ (reset completeness)',
         explanation='BOUNDED histories; reset completeness of the response object proved (BaseResponse.__init__).',
@@ -244,11 +244,11 @@ PROPS = {
         level_note='Bounds are stated in coverage.bounded.bound.',
     ),
     'C12': dict(
-        level='other', contracts=['C05', 'body_read'], frames=[],
+        level='other', contracts=['C05', 'body_read', 'C18', 'C12'], frames=['errors_map_const'],
         technique='bounded run-time contract check of grammar-mutated bodies through Ombott.__call__ (status class, delivered fields complete); '
-                  'proved exception frames of _iter_chunked and _body_read',
+                  'proved exception frames of _iter_chunked, _body_read, _raise, _get_body_string, json; termination of the readers and of parse_qsl',
         explanation='BOUNDED grammar mutations, truncations, byte mutations, small-scope bodies; proved: _iter_chunked raises only BodyParsingError, '
-                    '_body_read only BodySizeError/BodyParsingError, all loops of the chunked reader terminate.',
+                    '_body_read only BodySizeError/BodyParsingError, all loops of the chunked reader and of parse_qsl terminate, parse_qsl never raises.',
         level_text='Bounded contract check (never counted as proved) plus proved exception frames/termination of the readers.',
         level_note='Bounds are stated in coverage.bounded.bound.',
     ),
